@@ -75,7 +75,7 @@ V(o, c, name) == IF c THEN o ELSE [o EXCEPT !.viol = @ \cup {name}]
 
 Slot(verb, id, r) == [verb |-> verb, id |-> id, r |-> r]
 SlotsOf(o, verbs) == SelectSeq(o.slots, LAMBDA s : s.verb \in verbs)
-Last(s) == s[Len(s)]
+LastOf(s) == s[Len(s)]
 Fault(o, r) == IF r \in ConnK THEN [o EXCEPT !.healthy = FALSE] ELSE o
 
 ObsCall(o, c, a) ==
@@ -157,7 +157,7 @@ ObsDot(o, i, id, r) ==
   Fault([o EXCEPT !.slots = Append(@, Slot("DOT", id, r)), !.ph = "ready"], r)
 
 (* ---- results ------------------------------------------------------------------ *)
-(* res = [cls, id, sts, panic, hung, dur, connected, open]                           *)
+(* res = [cls, code, id, sts, panic, hung, dur, connected, open]                     *)
 (* sts = sequence of [ak, an, cls, id] handed to the LMTPData callback               *)
 
 (* the reply the result of a one-command call has to reflect *)
@@ -166,10 +166,11 @@ AttribOne(o, res, verb, wrapped) ==
       o1 == V(o, res.id # 0 => \E i \in 1..Len(o.slots) : o.slots[i].id = res.id, "ReplyOfAnotherCommand")
   IN IF own = <<>>
      THEN V(o1, res.cls # "ok", "SuccessWithoutPositiveReply")
-     ELSE LET s == Last(own)
+     ELSE LET s == LastOf(own)
               o2 == V(o1, res.cls = "ok" => s.r \in PosNow, "SuccessWithoutPositiveReply")
               o3 == V(o2, s.r \in PosNow => res.cls = "ok", "FailureDespitePositiveReply")
-              o4 == V(o3, s.r \in (Neg4 \cup Neg5) => (res.cls = ClassOf(s.r) /\ res.id = s.id), "ReplyMisreported")
+              o4 == V(o3, s.r \in (Neg4 \cup Neg5) => (res.cls # "ok" /\ res.id = s.id /\ (wrapped => res.cls = ClassOf(s.r))),
+                      "ReplyMisreported")
           IN V(o4, (wrapped /\ s.r \in ConnK /\ res.cls # "ok") => res.cls \in NotPerm, "ConnFailureReportedPermanent")
 
 StatusesOK(o, res, dots) ==
@@ -187,7 +188,8 @@ ObsRet(o, res) ==
   LET c  == o.call.c
       a  == o.call.a
       o1 == V(V(o, ~res.panic, "CallPanicked"), ~res.hung, "CallHung")
-      o2 == V(o1, c = "Close" => res.dur <= 6, "CloseSlow")
+      o2 == V(V(o1, c = "Close" => res.dur <= 6, "CloseSlow"),
+              (res.cls # "ok" /\ c \notin {"Close", "DirectClose"}) => (res.code = 0 \/ res.code >= 400), "ErrorWithSuccessCode")
       o3 ==
         CASE c = "Mail"  -> AttribOne(o2, res, "MAIL", TRUE)
           [] c = "Rcpt"  -> AttribOne(o2, res, "RCPT", TRUE)
@@ -197,11 +199,11 @@ ObsRet(o, res) ==
                LET dots == SlotsOf(o2, {"DOT"})
                    dcmd == SlotsOf(o2, {"DATA"})
                    p1 == V(o2, res.id # 0 => \E i \in 1..Len(o2.slots) : o2.slots[i].id = res.id, "ReplyOfAnotherCommand")
-                   p2 == V(p1, res.cls = "ok" => (dcmd # <<>> /\ Last(dcmd).r \in PosNow /\ o2.full /\ dots # <<>>),
+                   p2 == V(p1, res.cls = "ok" => (dcmd # <<>> /\ LastOf(dcmd).r \in PosNow /\ o2.full /\ dots # <<>>),
                            "SuccessWithoutPositiveReply")
                IN IF ~o.lmtp
                   THEN IF dots # <<>> THEN AttribOne(p2, res, "DOT", TRUE)
-                       ELSE IF dcmd # <<>> /\ Last(dcmd).r \notin PosNow THEN AttribOne(p2, res, "DATA", TRUE)
+                       ELSE IF dcmd # <<>> /\ LastOf(dcmd).r \notin PosNow THEN AttribOne(p2, res, "DATA", TRUE)
                        ELSE V(p2, res.cls # "ok", "SuccessWithoutPositiveReply")
                   ELSE IF c = "LData" THEN StatusesOK(p2, res, dots)
                        ELSE V(p2, res.cls = "ok" => (Len(dots) >= Len(o.accw) /\ \A i \in 1..Len(dots) : dots[i].r \in PosNow),
@@ -209,7 +211,7 @@ ObsRet(o, res) ==
           [] c = "Connect" ->
                LET hs == SlotsOf(o2, {"EHLO", "LHLO", "HELO"})
                    p1 == V(o2, res.id # 0 => \E i \in 1..Len(o2.slots) : o2.slots[i].id = res.id, "ReplyOfAnotherCommand")
-                   p2 == V(p1, res.cls = "ok" => (hs # <<>> /\ Last(hs).r \in PosNow /\ o2.ph = "ready"), "SuccessWithoutPositiveReply")
+                   p2 == V(p1, res.cls = "ok" => (hs # <<>> /\ LastOf(hs).r \in PosNow /\ o2.ph = "ready"), "SuccessWithoutPositiveReply")
                    p3 == V(p2, (res.cls = "ok" /\ a.tls) => o2.tls, "TlsRequiredNotEstablished")
                    p4 == V(p3, res.cls # "ok" => ~res.open, "ConnectionLeftOpen")
                    (* the first refusal that is not the 500/502 answered by the HELO fallback decides the class *)
@@ -218,7 +220,10 @@ ObsRet(o, res) ==
                                                            \E j \in 1..Len(o2.slots) : o2.slots[j].verb = "HELO"))
                IN IF bad = <<>> \/ res.cls = "ok" THEN p4
                   ELSE LET s == bad[1]
-                       IN V(V(p4, s.r \in (Neg4 \cup Neg5) => (res.cls = ClassOf(s.r) /\ res.id = s.id), "ReplyMisreported"),
+                       (* a 552 that refuses STARTTLS is handed on as it is (TLSError), not as 452 *)
+                       IN V(V(p4, s.r \in (Neg4 \cup Neg5) =>
+                                    /\ res.id = s.id
+                                    /\ res.cls = ClassOf(s.r) \/ (s.r = "p552" /\ s.verb = "STARTTLS" /\ res.cls = "perm"), "ReplyMisreported"),
                             s.r \in ConnK => res.cls \in NotPerm, "ConnFailureReportedPermanent")
           [] c \in {"Close", "DirectClose"} ->
                LET p1 == V(o2, ~res.open, "ConnectionLeftOpen")
